@@ -201,11 +201,21 @@ theorem led_black_white :
   rw [h.1, h.2.1, h.2.2]
   simp
 
-/-- the timings driver sends the same RGB565 word as the ring driver at full intensity -/
-theorem led_timing_colour (t : Timing) (r g b : Nat) (hr : r < 256) (hg : g < 256) (hb : b < 256)
+/-- The timings driver (no intensity) satisfies the same clauses on its own expressions: word `r5·2048 + g6·32 + b5`
+with in-range fields, each channel monotone in the level, black ↦ 0, white ↦ 31/63/31. -/
+theorem led_timing_rgb565 (t : Timing) (r g b : Nat) (hr : r < 256) (hg : g < 256) (hb : b < 256)
     (htr : t.r = r) (htg : t.g = g) (htb : t.b = b) :
-    timing565 t = ((ledChanR r 100 * 2048 + ledChanG g 100 * 32 + ledChanB b 100 : Nat) : Int) :=
+    ledtChanR r ≤ 31 ∧ ledtChanG g ≤ 63 ∧ ledtChanB b ≤ 31 ∧
+    timing565 t = ((ledtChanR r * 2048 + ledtChanG g * 32 + ledtChanB b : Nat) : Int) :=
   timing565_eq t r g b hr hg hb htr htg htb
+
+theorem led_timing_monotone (c c' : Nat) (hc : c ≤ c') (hc' : c' < 256) :
+    ledtChanR c ≤ ledtChanR c' ∧ ledtChanG c ≤ ledtChanG c' ∧ ledtChanB c ≤ ledtChanB c' :=
+  ledtChan_mono c c' hc hc'
+
+theorem led_timing_black_white :
+    ledtChanR 0 = 0 ∧ ledtChanG 0 = 0 ∧ ledtChanB 0 = 0 ∧ ledtChanR 255 = 31 ∧ ledtChanG 255 = 63 ∧ ledtChanB 255 = 31 := by
+  decide
 
 example : ledWriteData [⟨255, 255, 255, 100⟩, ⟨0, 0, 0, 100⟩, ⟨128, 64, 32, 50⟩] = .ok [0xff, 0xff, 0, 0, 0x41, 0x02] := by decide
 example : ledBytes ⟨255, 255, 255, 1000⟩ = .error .valueError := by decide    -- intensity beyond 100: bytearray() refuses
